@@ -37,7 +37,7 @@ import (
 )
 
 // waitLimit is generous on purpose: running into it is a harness failure (exit 2), never a verdict.
-var waitLimit = 20 * time.Second
+var waitLimit = 60 * time.Second
 
 // ev is one observed call of the manager on one of the three interfaces (or of the scripted peer).
 type ev struct {
@@ -77,7 +77,12 @@ func newRig() *rig {
 	return r
 }
 
+var debugEvents = os.Getenv("VERIF_SYNC_DEBUG") != ""
+
 func (r *rig) add(e ev) {
+	if debugEvents {
+		fmt.Fprintf(os.Stderr, "EV %s %s h=%d ok=%v code=%d %x\n", e.kind, e.caller, e.height, e.ok, e.code, e.hash[:3])
+	}
 	r.mu.Lock()
 	r.evs = append(r.evs, e)
 	r.mu.Unlock()
@@ -151,6 +156,20 @@ type chainWrap struct {
 	// that block waits on gate right after its begin event (guarded by r.mu)
 	gate     chan struct{}
 	gateHash common.Hash
+	// InsertBlock / InsertConfirms are let through one at a time (the engine serialises them under its chainLock anyway),
+	// so that every move of the stable block - each of which the engine publishes as one event - is seen here
+	ser gosync.Mutex
+}
+
+// mutate runs one engine call that may move the stable block and logs the move.
+func (c *chainWrap) mutate(f func()) {
+	c.ser.Lock()
+	defer c.ser.Unlock()
+	before := c.bc.StableBlock().Hash()
+	f()
+	if after := c.bc.StableBlock(); after.Hash() != before {
+		c.r.add(ev{kind: "stable.changed", hash: after.Hash(), height: after.Height()})
+	}
 }
 
 func (c *chainWrap) hold(h common.Hash) {
@@ -205,7 +224,8 @@ func (c *chainWrap) InsertBlock(block *types.Block) error {
 	if g != nil {
 		<-g
 	}
-	err := c.bc.InsertBlock(block)
+	var err error
+	c.mutate(func() { err = c.bc.InsertBlock(block) })
 	e := ev{kind: "InsertBlock.end", caller: who, hash: h, height: block.Height(), ok: err == nil}
 	if err != nil {
 		e.err = err.Error()
@@ -216,7 +236,7 @@ func (c *chainWrap) InsertBlock(block *types.Block) error {
 func (c *chainWrap) InsertConfirms(height uint32, blockHash common.Hash, sigList []types.SignData) {
 	who := callerName()
 	c.r.add(ev{kind: "InsertConfirms.begin", caller: who, hash: blockHash, height: height})
-	c.bc.InsertConfirms(height, blockHash, sigList)
+	c.mutate(func() { c.bc.InsertConfirms(height, blockHash, sigList) })
 	c.r.add(ev{kind: "InsertConfirms.end", caller: who, hash: blockHash, height: height})
 }
 func (c *chainWrap) IsInBlackList(b *types.Block) bool { return c.bc.IsInBlackList(b) }
@@ -419,9 +439,11 @@ func (n *nut) fence() {
 }
 
 // settled: every InsertBlock / InsertConfirms the manager decided on (HasBlock(parent)=true in the receive loop
-// or in the timer callback; HasBlock(hash)=true for a single confirm) has begun and ended.
+// or in the timer callback; HasBlock(hash)=true for a single confirm) has begun and ended, and every stable-block
+// event the engine published has been taken off the bus by the manager's stableBlockLoop (so none can leak into
+// the next behaviour's manager, and the cache clearing it triggers is at most one goroutine start away).
 func settledIn(evs []ev) bool {
-	expIns, begIns, endIns, expConf, goConf, begConf, endConf := 0, 0, 0, 0, 0, 0, 0
+	expIns, begIns, endIns, expConf, goConf, begConf, endConf, stChanged, stReceived := 0, 0, 0, 0, 0, 0, 0, 0, 0
 	rcvState := 0 // the receive loop asks StableBlock(), then HasBlock(b.Hash()), then HasBlock(b.ParentHash())
 	for _, e := range evs {
 		switch e.kind {
@@ -461,9 +483,13 @@ func settledIn(evs []ev) bool {
 			}
 		case "InsertConfirms.end":
 			endConf++
+		case "stable.changed":
+			stChanged++
+		case "stable.received":
+			stReceived++
 		}
 	}
-	return begIns == endIns && begConf == endConf && begIns >= expIns && goConf >= expConf
+	return begIns == endIns && begConf == endConf && begIns >= expIns && goConf >= expConf && stReceived >= stChanged
 }
 
 func (n *nut) waitSettled(what string) {
